@@ -1034,6 +1034,7 @@ bool ConnRef::generatePath(void)
     freeRoutes();
     PolyLine& output_route = m_route;
     output_route.ps = clippedPath;
+    calcRouteDist();
  
 #ifdef PATHDEBUG
     db_printf("Output route:\n");
